@@ -287,7 +287,14 @@ func ruleReattach(c *Ctx) {
 					if rf != lf {
 						continue
 					}
-					if base := SelField(rinfo, ast.Unparen(rse.X)); base != nil && p.FieldName(base) == "ClientConfig.Reattach" {
+					baseX := ast.Unparen(rse.X)
+					// through a local bound once to the configured value (r := c.config.Reattach)
+					if bv, isV := identObj(rinfo, baseX).(*types.Var); isV && !bv.IsField() {
+						if d := p.singleDef(rc, bv); d != nil {
+							baseX = ast.Unparen(d)
+						}
+					}
+					if base := SelField(rinfo, baseX); base != nil && p.FieldName(base) == "ClientConfig.Reattach" {
 						copied[lf.Name()] = true
 					}
 				}
